@@ -269,7 +269,7 @@ class PipeAnalysis:
     def run_instance(self, entry: str, m: int, k):
         """The same abstract run with concrete sizes: m rows in the stack of cotangents, parallel_chunk_size = k (None: not given).
         Tensors stay abstract; loops over row blocks run iteration by iteration and every value remembers which rows it carries."""
-        self.ops.inst = {"m": m, "k": k}
+        self.ops.inst = {"m": m, "k": k, "entry": entry}
         try:
             if entry == "backward":
                 return self.run_backward(True, k is not None, inst=self.ops.inst)
